@@ -30,7 +30,8 @@ pub fn check_case(c: &FullCase, obs: &mut Obs) -> Result<(), String> {
     // (c) fixpoint, iterated twice
     let mut cur = b1.clone();
     for round in 0..2 {
-        let mut e = Engine::new(c.optimize);
+        // the receiver's own construction options are irrelevant: loading replaces them
+        let mut e = if round == 0 { Engine::new(c.optimize) } else if c.rules.len() % 2 == 0 { Engine::new(!c.optimize) } else { Engine::default() };
         e.deserialize(&cur).map_err(|x| format!("deserialize: {:?}", x))?;
         let again = e.serialize_raw().map_err(|x| format!("serialize: {:?}", x))?;
         if again != b1 {
@@ -146,7 +147,7 @@ fn cross_process(ctx: &mut Ctx, cases: &[FullCase], procs: usize) {
 }
 
 pub fn check(ctx: &mut Ctx) {
-    ctx.rule = "lists of up to 120 (mid) / up to ~3000 (big, with many rules sharing a token so buckets hold several rules and fusion happens) network + cosmetic rules, debug/optimise flags generated; (a) two independent in-process builds give identical bytes, (b) K fresh child processes give the same digest as the parent, (c) serialize(deserialize(b)) == b twice. Plus deterministic slices of the real lists in /repo/data. Non-trivial = at least 8 network and 4 cosmetic rules.".into();
+    ctx.rule = "lists of up to 120 (mid) / up to ~3000 (big, with many rules sharing a token so buckets hold several rules and fusion happens) network + cosmetic rules, debug/optimise flags generated; (a) two independent in-process builds give identical bytes, (b) K fresh child processes give the same digest as the parent, (c) serialize(deserialize(b)) == b twice (the second time into a receiver constructed with the other optimisation flag or with Engine::default()). Plus deterministic slices of the real lists in /repo/data. Non-trivial = at least 8 network and 4 cosmetic rules.".into();
     ctx.assumptions = vec!["hash-seed variation comes from std RandomState (fresh per map and per process); digests are two independent 64-bit seahash values + length".into()];
     let n = ctx.tier.pick(20_000, 200_000);
     drive(ctx, "mid", n, 6000, &decode, &check_case);
